@@ -14,10 +14,10 @@ import (
 	"net/http"
 	"os"
 	"path/filepath"
+	"regexp"
 	"runtime/debug"
 	"sort"
 	"strconv"
-	"regexp"
 	"strings"
 	"time"
 
